@@ -1004,6 +1004,7 @@ fn run_fuzz_stage(id: &str, spec: &FuzzSpec, seed: u64) -> (Value, u64, Vec<(Str
         .arg(format!("-runs={}", spec.runs))
         .arg(format!("-seed={}", (seed % 0xFFFF_FFFF).max(1)))
         .arg("-len_control=0")
+        .arg("-detect_leaks=0")
         .arg(format!("-max_len={}", spec.max_len))
         .arg(format!("-artifact_prefix={}/", artifacts.display()))
         .arg("-print_final_stats=1")
